@@ -179,3 +179,32 @@ def _fitstable(r):
         else:
             t[name] = v
     return t
+
+
+# ---- additional recipe types used by the history engine
+def build_ext(r):
+    """Recipes whose construction calls the library under test (derived
+    inputs with a fixed, literal derivation)."""
+    t = r['t']
+    if t == 'datafile':
+        import os
+        import regions
+        p = os.path.join(os.path.dirname(regions.__file__), r['path'])
+        with open(p, 'rb') as fh:
+            return fh.read().decode('utf-8')
+    if t == 'serialized':
+        from regions import Regions
+        regs = Regions([build(x) for x in r['regions']])
+        return regs.serialize(format=r['fmt'], **r.get('kw', {}))
+    if t == 'mask':
+        return build(r['region']).to_mask(mode=r.get('mode', 'center'))
+    raise ValueError(t)
+
+
+_build_core = build
+
+
+def build(r):  # noqa: F811
+    if is_recipe(r) and r['t'] in ('datafile', 'serialized', 'mask'):
+        return build_ext(r)
+    return _build_core(r)
